@@ -458,6 +458,24 @@ def run(ck):
                         ck.undecided("C03.R5", inst + ":amplitude = positive - <dE/dlambda>_model", esite, "exact gradient %r not recognised" % (got0,))
                 if len(items) > 1:
                     ck.check(items[1].term == T.sym("P_rbm_ph"), "C03.R5", inst + ":phase gradient untouched", esite, "the phase gradient is modified by the negative phase: %r" % (items[1].term,))
+    # ------------------------------------------------------------------ R7 history independence: every call computes its own gradient, in its own tensors
+    from .history import check_history
+
+    for cls in STATES:
+        gsite = prog.method(cls, "gradient").site()
+
+        def mk0(it, cls=cls):
+            return (make_state(it, cls), tens(it, "S", ("B", "nv")))
+
+        check_history(ck, "C03.R7", cls + ".gradient(samples)", gsite, mk0, lambda it, c: call(it, c[0], "gradient", c[1]), max_paths=40)
+        if cls != "PositiveWaveFunction":
+            def mk1(it, cls=cls):
+                return (make_state(it, cls), tens(it, "S", ("B", "nv")), api.bases_arr(it))
+
+            check_history(ck, "C03.R7", cls + ".gradient(samples, bases)", gsite, mk1, lambda it, c: call(it, c[0], "gradient", c[1], bases=c[2]), max_paths=40)
+            check_history(ck, "C03.R7", cls + ".positive_phase_gradients(samples, bases)", prog.method(cls, "positive_phase_gradients").site(), mk1,
+                          lambda it, c: call(it, c[0], "positive_phase_gradients", c[1], bases_batch=c[2]), max_paths=40)
+    ck.require_min("C03.R7", 10)
     ck.require_min("C03.R1", 40)
     ck.require_min("C03.R2", 30)
     ck.require_min("C03.R3", 15)
